@@ -1,18 +1,36 @@
 #!/bin/bash
-# tools_mutants.sh <dir-with-patch.diff>... : applies each seeded change to /repo, runs the quick check of its property
-# (property id taken from meta.json), restores /repo and the committed evidence. Prints one line per change.
+# tools_mutants.sh <seeded-dir>... : applies each seeded change to /repo (git apply), runs the quick check (TIER=thorough
+# for the other tier; CHECK=Cnn to run another property's check) of its property, restores /repo (git checkout -- .) and
+# the committed evidence, and records the outcome in the directory's meta.json. Prints one line per change.
 cd /verif
 for d in "$@"; do
-  id=$(python3 -c "import json,sys;print(json.load(open('$d/meta.json'))['property'])")
+  d=$(realpath ${d%/})
+  id=${CHECK:-$(python3 -c "import json;print(json.load(open('$d/meta.json'))['property'])")}
   if ! git -C /repo apply --check "$d/patch.diff" 2>/dev/null; then echo "$d: patch does not apply"; continue; fi
   git -C /repo apply "$d/patch.diff"
   t0=$(date +%s)
   out=$(./check $id ${TIER:-quick} 2>&1); code=$?
   t1=$(date +%s)
   git -C /repo checkout -- .
-  sig=$(echo "$out" | grep -A1 "^VIOLATION" | grep "sig:" | head -3 | tr '\n' ' ')
-  echo "$d: $id exit=$code $((t1-t0))s $(echo "$out" | grep -c '^VIOLATION') violation line(s) $sig"
+  sig=$(echo "$out" | grep -A1 "^VIOLATION" | grep "sig:" | head -1 | sed 's/^ *sig: //')
+  nviol=$(echo "$out" | grep -c '^VIOLATION')
+  echo "$d: $id exit=$code $((t1-t0))s $nviol violation line(s) $sig"
   mkdir -p /tmp/mutlogs; echo "$out" | grep -v "^proptest" > /tmp/mutlogs/$(echo $d | tr '/' '_').log
+  python3 - "$d" "$id" "${TIER:-quick}" "$code" "$sig" <<'PY'
+import json,sys
+d,cid,tier,code,sig=sys.argv[1:6]
+p=d+"/meta.json"; m=json.load(open(p))
+res="caught" if code=="1" else ("missed" if code=="0" else "inconclusive")
+m.setdefault("history",[]).append("%s %s: %s%s" % (cid,tier,res,(" ("+sig+")") if sig else ""))
+if res=="caught":
+    cb=m.get("caught_by","")
+    tag="%s %s" % (cid,tier)
+    if cb in ("","missed","?") : m["caught_by"]=tag; m["first_sig"]=sig
+    elif tag not in cb: m["caught_by"]=cb+", "+tag
+elif m.get("caught_by","") in ("","?"):
+    m["caught_by"]="missed"
+json.dump(m,open(p,"w"),indent=1)
+PY
 done
 git -C /verif checkout -- evidence
 rm -rf /verif/out/*
